@@ -267,6 +267,7 @@ func main() {
 	flag.IntVar(&timeoutS, "timeout", 0, "overall time budget in seconds (0 = none)")
 	flag.BoolVar(&o.NoNative, "no-native", false, "skip native replays (debugging only)")
 	flag.BoolVar(&o.Verbose, "v", false, "verbose")
+	flag.StringVar(&o.ReplayOnly, "replay", "", "replay one recorded counterexample natively and exit")
 	flag.StringVar(&o.KnownFile, "known", "/verif/known_findings.json", "known findings file")
 	flag.Parse()
 	verboseCrash = o.Verbose
@@ -276,7 +277,9 @@ func main() {
 		o.WorkDir = filepath.Join("/verif/.work", fmt.Sprintf("%s-%d", o.Property, os.Getpid()))
 	}
 	os.MkdirAll(o.WorkDir, 0o755)
-	defer os.RemoveAll(o.WorkDir)
+	if os.Getenv("GOSYM_KEEP") == "" {
+		defer os.RemoveAll(o.WorkDir)
+	}
 	if timeoutS > 0 {
 		o.Cfg.Deadline = time.Now().Add(time.Duration(timeoutS) * time.Second)
 	}
@@ -284,7 +287,9 @@ func main() {
 		o.Cfg.Tier = 1
 	}
 	code := runCheck(o)
-	os.RemoveAll(o.WorkDir)
+	if os.Getenv("GOSYM_KEEP") == "" {
+		os.RemoveAll(o.WorkDir)
+	}
 	os.Exit(code)
 }
 
@@ -300,6 +305,9 @@ func runCheck(o *Options) int {
 	if err != nil {
 		fmt.Println("ERROR: cannot load /repo with harness overlay:", err)
 		return 2
+	}
+	if o.ReplayOnly != "" {
+		return replayOnly(o, ov, names)
 	}
 	fmt.Printf("[gosym] loaded %s tree=%s pkgs=%v in %.1fs\n", o.Repo, treeHash(o.Repo), o.Pkgs, time.Since(start).Seconds())
 
@@ -376,6 +384,48 @@ func runCheck(o *Options) int {
 		dirOf[j.fn.Name()] = j.dir
 	}
 	return finish(o, ov, results, dirOf, start)
+}
+
+// replayOnly re-runs one replay file natively against /repo's current tree.
+func replayOnly(o *Options, ov map[string]string, names map[string][]string) int {
+	b, err := os.ReadFile(o.ReplayOnly)
+	if err != nil {
+		fmt.Println("ERROR:", err)
+		return 2
+	}
+	var rp Replay
+	if err := json.Unmarshal(b, &rp); err != nil {
+		fmt.Println("ERROR:", err)
+		return 2
+	}
+	dir := ""
+	for d, hs := range names {
+		for _, h := range hs {
+			if h == rp.Harness {
+				dir = d
+			}
+		}
+	}
+	if dir == "" {
+		fmt.Println("ERROR: harness not found:", rp.Harness)
+		return 2
+	}
+	rdir := filepath.Join(o.WorkDir, "replay1")
+	os.MkdirAll(rdir, 0o755)
+	os.WriteFile(filepath.Join(rdir, "r.json"), b, 0o644)
+	res, out, err := nativeRun(o, ov, dir, rdir, false)
+	if err != nil {
+		fmt.Println("NATIVE RUN FAILED:", err)
+		fmt.Println(tail(out, 30))
+		return 2
+	}
+	got := res["r.json"]
+	fmt.Printf("replay of %s (%s): %s\n", o.ReplayOnly, rp.Harness, got)
+	if got != "ok" {
+		fmt.Printf("VIOLATION property=%s replay=%s\n", o.Property, o.ReplayOnly)
+		return 1
+	}
+	return 0
 }
 
 func initOrder(p *ssa.Package) int {
